@@ -290,3 +290,57 @@ Theorem lazy_run_failing_attr_statement_fails_run : forall {rx} t fl cfg supplie
   eval_lstmt t fl call (fuel + default_eval_fuel) x s2 p2 = Err e ->
   run_lazy t fl cfg supplied budget regexes find call fuel matches g0 = Err e.
 Proof. intros rx. exact (@lazy_run_attr_stmt_fails rx). Qed.
+
+(* non-vacuity: the hypotheses of the statement-level theorems hold on a concrete state (node 0 has k = 1, x is bound to
+   node 0): `attr (x) k = 2` fails, `attr (x) k = 1` is accepted *)
+Definition c09_s1 : sstate :=
+  {| s_graph := [ {| g_attrs := [([107], VInt 1)]; g_edges := [(0, [([107], VInt 1)])] |} ];
+     s_locals := [[([120], (VGraph 0, false))]]; s_scoped := []; s_params := [] |}.
+Definition c09_le : lenv := {| le_match := []; le_full := 0; le_caps := []; le_ctx := {| sc_stmt := (0, 0); sc_stanza := (0, 0); sc_node := 0 |} |}.
+Example c09_strict_stmt_nonvacuous :
+  exec_stmt c09_tree c09_file config0 [] (@nil unit) (fun _ _ => None) (stdlib_call c09_oracle c09_tree) 3 c09_le
+    (SAttrNode (EUnscoped [120] (0, 0)) ([] ++ Attr [107] (EInt 2) :: []) (0, 0)) c09_s1 (polls0 None) = Err EDuplicateAttribute /\
+  exec_stmt c09_tree c09_file config0 [] (@nil unit) (fun _ _ => None) (stdlib_call c09_oracle c09_tree) 3 c09_le
+    (SAttrEdge (EUnscoped [120] (0, 0)) (EUnscoped [120] (0, 0)) ([] ++ Attr [107] (EInt 2) :: []) (0, 0)) c09_s1 (polls0 None) = Err EDuplicateAttribute /\
+  (exists s' p', exec_stmt c09_tree c09_file config0 [] (@nil unit) (fun _ _ => None) (stdlib_call c09_oracle c09_tree) 3 c09_le
+    (SAttrNode (EUnscoped [120] (0, 0)) [Attr [107] (EInt 1)] (0, 0)) c09_s1 (polls0 None) = Ok (tt, s', p') /\ s_graph s' = s_graph c09_s1).
+Proof.
+  split; [|split].
+  - eapply (strict_attr_conflict_fails c09_tree c09_file config0 [] (@nil unit) (fun _ _ => None) (stdlib_call c09_oracle c09_tree) 1 c09_le
+              (EUnscoped [120] (0, 0)) [] [107] (EInt 2) [] (0, 0) c09_s1 (polls0 None) 0 _ _ _ _ (VInt 2) _ _ (VInt 1)).
+    all: try (vm_compute; reflexivity). discriminate.
+  - eapply (strict_edge_attr_conflict_fails c09_tree c09_file config0 [] (@nil unit) (fun _ _ => None) (stdlib_call c09_oracle c09_tree) 1 c09_le
+              (EUnscoped [120] (0, 0)) (EUnscoped [120] (0, 0)) [] [107] (EInt 2) [] (0, 0) c09_s1 (polls0 None) 0 0 _ _ _ _ _ _ (VInt 2) _ _ (VInt 1)).
+    all: try (vm_compute; reflexivity). discriminate.
+  - eexists. eexists. split.
+    + eapply (strict_attr_equal_value_accepted c09_tree c09_file config0 [] (@nil unit) (fun _ _ => None) (stdlib_call c09_oracle c09_tree) 1 c09_le
+                (EUnscoped [120] (0, 0)) [107] (EInt 1) (0, 0) c09_s1 (polls0 None) 0 _ _ (VInt 1)).
+      all: vm_compute; reflexivity.
+    + reflexivity.
+Qed.
+
+(* non-vacuity at run level, both interpreters:  (module) @m { let x = (node)  attr (x) k = 1  attr (x) k = 2 }  fails
+   with root cause DuplicateAttribute;  with `attr (x) k = 1` twice it succeeds and k = 1 *)
+Definition c09_file2 (second : N) : file :=
+  {| f_globals := []; f_inherited := []; f_shorthands := [];
+     f_stanzas := [{|
+       st_stmts := [ SLet (VarU [120] (1, 6)) (ECall Lit.node []) (1, 2);
+                     SAttrNode (EUnscoped [120] (2, 8)) [Attr [107] (EInt 1)] (2, 2);
+                     SAttrNode (EUnscoped [120] (3, 8)) [Attr [107] (EInt second)] (3, 2) ];
+       st_full_stanza_idx := 0; st_full_file_idx := 0; st_start := (0, 0) |}] |}.
+Example c09_run_conflict_nonvacuous :
+  (exists e, run_strict c09_tree (c09_file2 2) config0 [[]] None (@nil unit) (fun _ _ => None) (stdlib_call c09_oracle c09_tree) 50 [[[(0, [0])]]] [] = Err e /\
+             root_cause e = EDuplicateAttribute) /\
+  (exists e, run_lazy c09_tree (c09_file2 2) config0 [[]] None (@nil unit) (fun _ _ => None) (stdlib_call c09_oracle c09_tree) 50 [(0, [(0, [0])])] [] = Err e /\
+             root_cause e = EDuplicateAttribute) /\
+  (exists s p, run_strict c09_tree (c09_file2 1) config0 [[]] None (@nil unit) (fun _ _ => None) (stdlib_call c09_oracle c09_tree) 50 [[[(0, [0])]]] [] = Ok (s, p) /\
+             s_graph s = [ {| g_attrs := [([107], VInt 1)]; g_edges := [] |} ]) /\
+  (exists s p, run_lazy c09_tree (c09_file2 1) config0 [[]] None (@nil unit) (fun _ _ => None) (stdlib_call c09_oracle c09_tree) 50 [(0, [(0, [0])])] [] = Ok (s, p) /\
+             l_graph s = [ {| g_attrs := [([107], VInt 1)]; g_edges := [] |} ]).
+Proof.
+  split; [|split; [|split]].
+  - eexists. split; vm_compute; reflexivity.
+  - eexists. split; vm_compute; reflexivity.
+  - eexists. eexists. split; vm_compute; reflexivity.
+  - eexists. eexists. split; vm_compute; reflexivity.
+Qed.
